@@ -97,8 +97,25 @@ def run_allocator(ctx, ncases):
         txt += "CASE %d %d\n" % (cap, len(ops))
         for o in ops:
             txt += ("C\n" if o[0] == "C" else "A %d %d\n" % (o[1], o[2]))
-    rc, out = ctx.run_harness(exe, input=txt)
-    impl, done = gen.parse_harness(out, len(cases))
+    def case_text(c):
+        cap, ops = c
+        return "CASE %d %d\n" % (cap, len(ops)) + "".join("C\n" if o[0] == "C" else "A %d %d\n" % (o[1], o[2]) for o in ops)
+
+    # a crash / abort / sanitizer report of the harness is a violation for the
+    # list that was executing; the remaining lists are run in a fresh process
+    impl, crash_why = [], {}
+    todo = list(range(len(cases)))
+    while todo:
+        rc, out = ctx.run_harness(exe, input="".join(case_text(cases[i]) for i in todo), timeout=600)
+        res, done = gen.parse_harness(out, len(todo))
+        why = gen.abnormal(rc, out, done)
+        if not why:
+            impl += res
+            break
+        k = next((j for j, i in enumerate(todo) if len(res[j]) != len(cases[i][1])), len(todo) - 1)
+        crash_why[todo[k]] = (why, out[-600:])
+        impl += res[:k] + [res[k][:max(0, len(cases[todo[k]][1]) - 1)]]
+        todo = todo[k + 1:]
     mexe = ctx.ocaml_extract("C16/Extract.v", os.path.join(HERE, "harness", "driver.ml"), "c16model_exe", "c16model")
     mrc, mout = vlib.sh([mexe], input=txt, timeout=600)
     model, mdone = gen.parse_harness(mout, len(cases))
@@ -108,8 +125,11 @@ def run_allocator(ctx, ncases):
     for i, ((cap, ops), im, mo) in enumerate(zip(cases, impl, model)):
         ctx.case(("alloc", cap, ops), nontrivial=len(ops) >= 2)
         ctx.count("alloc-capacity:%d" % cap)
-        crashed = (rc != 0 or not done) and len(im) != len(ops)
-        orc = None if crashed else alloc_oracle(cap, ops, im)
+        crashed = i in crash_why
+        try:
+            orc = None if crashed else alloc_oracle(cap, ops, im)
+        except Exception as e:
+            orc = (0, "uninterpretable output of the real allocator: %r" % e)
         if crashed or orc is not None or im != mo:
             nbad += 1
             if nbad > 3:
@@ -117,7 +137,8 @@ def run_allocator(ctx, ncases):
             replay = {"capacity": cap, "ops": ops, "impl": im, "model": mo,
                       "layout": "result(0 null, start+1, 100 cleared) size storage..."}
             if crashed:
-                ctx.violation("crash", "StackAllocator harness crashed", replay)
+                replay["why"], replay["output_tail"] = crash_why[i]
+                ctx.violation("crash", "the real StackAllocator crashed / aborted while executing an op list [%s]" % crash_why[i][0], replay)
             elif orc is not None:
                 replay["violated_at_op"], replay["violation"] = orc
                 ctx.violation("property", "StackAllocator violates C16: " + orc[1], replay)
@@ -180,31 +201,42 @@ def run_stepper(ctx, nruns):
                                                build_util.STEPPER_TUS, LIBS)
     r = ctx.rng
     runs = [gen_stepper_run(r) for _ in range(nruns)]
-    rc, out = ctx.run_harness(exe, input="".join(stepper_text(x) for x in runs), env=HENV, timeout=900)
-    optext = [[] for _ in runs]
-    dumps = [[] for _ in runs]
-    glines = [[] for _ in runs]
-    bad_result = set()
-    done = False
-    for line in out.splitlines():
-        t = line.split()
-        if not t:
-            continue
-        if t[0] == "O":
-            optext[int(t[1])].append(" ".join(t[3:]))
-        elif t[0] == "D":
-            dumps[int(t[1])].append([int(x) for x in line.replace("|", " ").split()[3:]])
-        elif t[0] == "G":
-            glines[int(t[1])].append(t[2:])
-        elif t[0] == "BADRESULT":
-            bad_result.add(int(t[1]))
-        elif t[0] == "DONE":
-            done = True
-    if rc != 0 or not done:
-        last = max([i for i in range(len(runs)) if dumps[i]] or [0])
-        ctx.violation("crash", "Stepper harness crashed (not a RuntimeError) in a starved-capacity run",
-                      {"run": runs[last], "harness_input": stepper_text(runs[last]), "log_tail": out[-800:]})
-        return 0, 0, 0
+    from concurrent.futures import ThreadPoolExecutor
+    import re as _re
+    oline = _re.compile(r"^O 0 (\d+) (.*)$")
+
+    def one(run):
+        """each configuration in its own child process: a crash of one does not lose the others"""
+        rc, out = ctx.run_harness(exe, input=stepper_text(run), env=HENV, timeout=300)
+        ot, gl, bad = [], [], False
+        dm, done = gen.parse_harness(out, 1)
+        for line in out.splitlines():
+            m = oline.match(line)
+            if m and int(m.group(1)) == len(ot):
+                ot.append(m.group(2).strip())
+            elif line.startswith("G 0 ") and len(line.split()) == 11:
+                gl.append(line.split()[2:])
+            elif line.startswith("BADRESULT"):
+                bad = True
+        return ot, dm[0], gl, bad, gen.abnormal(rc, out, done), out[-600:]
+
+    with ThreadPoolExecutor(max_workers=6) as ex:
+        outs = list(ex.map(one, runs))
+    optext = [o[0] for o in outs]
+    dumps = [o[1] for o in outs]
+    glines = [o[2] for o in outs]
+    bad_result = set(i for i, o in enumerate(outs) if o[3])
+    ncrash = 0
+    for i, o in enumerate(outs):
+        if o[4]:
+            ncrash += 1
+            if ncrash <= 3:
+                ctx.violation("crash", "the real Stepper crashed / aborted / timed out (not a RuntimeError) in a starved-capacity run [%s]" % o[4],
+                              {"run": runs[i], "harness_input": stepper_text(runs[i]),
+                               "ops_completed": len(dumps[i]), "last_ops": optext[i][-6:], "output_tail": o[5]})
+        # keep only what is consistent for the comparison below
+        k = min(len(optext[i]), len(dumps[i]))
+        optext[i], dumps[i] = optext[i][:k], dumps[i][:k]
     cases = []
     odd = set()
     for i, ot in enumerate(optext):
@@ -214,9 +246,15 @@ def run_stepper(ctx, nruns):
             odd.add(i)
             optext[i] = ot[:k]
             dumps[i] = dumps[i][:k]
-    for run, ot in zip(runs, optext):
-        cases.append({"n": run["n"], "cap": run["cap"], "order": run["order"], "nev": 2,
-                      "ops": [gen.parse_op_text(t, run["n"]) for t in ot]})
+    for i, (run, ot) in enumerate(zip(runs, optext)):
+        ops = []
+        for t in ot:
+            try:
+                ops.append(gen.parse_op_text(t, run["n"]))
+            except Exception:       # garbled line (the process was dying): compare what is intact
+                break
+        optext[i], dumps[i] = ot[:len(ops)], dumps[i][:len(ops)]
+        cases.append({"n": run["n"], "cap": run["cap"], "order": run["order"], "nev": 2, "ops": ops})
     model = c02run.model_eval(ctx, "stepper", cases)
     nfail_total = nerr = nbad = 0
     for i, (run, c, im, mo) in enumerate(zip(runs, cases, dumps, model)):
@@ -234,8 +272,12 @@ def run_stepper(ctx, nruns):
         for g in glines[i]:
             # op slot status nsec E_pre E_post deposit step_length moved
             nfail_total += 1
-            status, nsec = int(g[2]), int(g[3])
-            e_pre, e_post, dep = (float.fromhex(x) for x in g[4:7])
+            try:
+                status, nsec = int(g[2]), int(g[3])
+                e_pre, e_post, dep = (float.fromhex(x) for x in g[4:7])
+            except ValueError:
+                gbad = g
+                continue
             if status != 2 or nsec != 0 or e_pre != e_post or dep != 0.0:
                 gbad = g
         if len(ctx.samples) < 5 and glines[i]:
@@ -270,6 +312,18 @@ def run_stepper(ctx, nruns):
 
 
 def run(ctx):
+    try:
+        _run(ctx)
+    except vlib.BuildError:
+        raise
+    except Exception:
+        # nothing the real code does may turn into an "internal error" of the check
+        import traceback
+        ctx.violation("crash", "the check could not interpret the behaviour of the real code (see traceback)",
+                      {"traceback": traceback.format_exc()[-3000:]}, no_input=True)
+
+
+def _run(ctx):
     quick = ctx.tier == "quick"
     ctx.trusted += [
         "hand-written models coq/C16/Allocator.v and coq/C02/TrackInit.v tied by exact op-sequence differentials",
@@ -287,11 +341,11 @@ def run(ctx):
         ctx.violation("model-broken", "the executable model no longer compiles", {"log": log[-2000:]}, no_input=True)
         return
     scale = float(os.environ.get("VERIF_SCALE", "1") or 1)   # mutation self-tests use a smaller run
+    ctx.build_libs(["testcel_celeritas"])      # also generates the config headers the header-only harness needs
     t = time.time()
     na = run_allocator(ctx, int((500 if quick else 6000) * scale))
     ctx.log("allocator differential: %d cases in %.1fs" % (na, time.time() - t))
     c02run.MODEL_EXE["exe"] = ctx.ocaml_extract("C02/Extract.v", os.path.join(C02, "harness", "driver.ml"), "c02model_exe", "c02model")
-    ctx.build_libs(["testcel_celeritas"])
     exe = build_util.compile_with_repo_sources(ctx, [os.path.join(C02, "harness", "trackinit.cc")], "trackinit",
                                                build_util.TRACK_TUS, LIBS)
     t = time.time()
